@@ -80,7 +80,9 @@ def dense_potential_evaluator(ctx):
         raise AnalysisError("DensePotentialAssembler.__init__: evaluator closure not found")
     defs = roles.Defs(fn, extra_scopes=inner)
     x = arg_names(inner[0])[0]
-    calls = [c for c in calls_in(inner[0]) if isinstance(c.func, ast.Name) and c.func.id == "implementation"]
+    # the kernel launch: the local bound to the result of potential_dispatcher(...)
+    impl = {s.targets[0].id for s in fn.body if isinstance(s, ast.Assign) and isinstance(s.targets[0], ast.Name) and isinstance(s.value, ast.Call) and unparse(s.value.func).endswith("potential_dispatcher")}
+    calls = [c for c in calls_in(inner[0]) if isinstance(c.func, ast.Name) and c.func.id in impl]
     if len(calls) != 1:
         raise AnalysisError("potential evaluator does not call the implementation exactly once")
     got = roles.canon(calls[0].args[0], defs).replace(" ", "")
